@@ -18,7 +18,29 @@ def rel_specs(parents: int = 2, children: int = 3, tags: int = 2, links: int = 3
     ]
 
 
-ROOT_TABLE = {"Parent": "vt_parent", "Child": "vt_child", "Tag": "vt_tag", "Item": "vt_item"}
+def rel_specs2(users: int = 2, teams: int = 2, projects: int = 2, tickets: int = 2):
+    """Second schema (SQLAlchemy only, models/sa2.py): same-named relationships on different models."""
+    return [
+        TableSpec("vt2_user", [Col("id", "int", nullable=False, pk=True), Col("name", "str")], slots=users),
+        TableSpec("vt2_team", [Col("id", "int", nullable=False, pk=True), Col("name", "str")], slots=teams),
+        TableSpec("vt2_project", [Col("id", "int", nullable=False, pk=True), Col("name", "str"),
+                                  Col("owner_id", "int", fk="vt2_team")], slots=projects),
+        TableSpec("vt2_ticket", [Col("id", "int", nullable=False, pk=True), Col("n", "int"), Col("title", "str"),
+                                 Col("owner_id", "int", fk="vt2_user"), Col("project_id", "int", fk="vt2_project")],
+                  slots=tickets),
+    ]
+
+
+ROOT_TABLE = {"Parent": "vt_parent", "Child": "vt_child", "Tag": "vt_tag", "Item": "vt_item",
+              "Ticket": "vt2_ticket", "Project": "vt2_project"}
+SCHEMA2_MODELS = ("Ticket", "Project", "User", "Team")
+
+
+def specs_for(model: str, slots=None):
+    if model in SCHEMA2_MODELS:
+        return rel_specs2(*(slots or ()))
+    return rel_specs(*(slots or ()))
+
 
 # (table, relationship name) -> ('one', target table, fk column on this table)
 #                             | ('many', target table, fk column on the target pointing back)
@@ -32,4 +54,8 @@ REL = {
     ("vt_child", "parent"): ("one", "vt_parent", "parent_id"),
     ("vt_child", "owner"): ("one", "vt_parent", "owner_id"),
     ("vt_tag", "parents"): ("m2m", "vt_parent", "vt_parent_tags", "tag_id", "parent_id"),
+    # second schema: `owner` names two different relationships
+    ("vt2_ticket", "owner"): ("one", "vt2_user", "owner_id"),
+    ("vt2_ticket", "project"): ("one", "vt2_project", "project_id"),
+    ("vt2_project", "owner"): ("one", "vt2_team", "owner_id"),
 }
